@@ -1,6 +1,34 @@
 /-
-  C04 — property theorems (stub; to be filled in).
+  C04 — transaction blocks commit everything on success and nothing on error or panic.
+  Theorems over Model/Tx.lean (`run` = gorm's Transaction/Begin/Commit/Rollback/SavePoint/RollbackTo transcribed over a
+  snapshot-stack database with a fault oracle per driver call; `spec` = functional reference).
 -/
+import GormModel.Model.Tx
+import GormModel.Lemmas.Tx
 namespace Gorm
+open Gorm.Tx
+
+def C04_cfg0 : Cfg := { prep := false, dis := false, skip := false }
+
+/-- minimal witness of finding F18: outer block { write 1; ignored nested block { write 2 } ; return nil } -/
+def C04_stickyWitness : List Prog :=
+  [.blk [.write (.ins 1) true, .blk [.write (.ins 2) true] .retNil 1 false] .retNil 2 true]
+
+/-- FINDING F18 (counterexample, kernel-checked): the nested block's SAVEPOINT (driver call 2) fails; the outer function
+    returns nil, COMMIT succeeds and row 1 is durable — but Transaction returns the stale SAVEPOINT error. -/
+theorem C04_sticky_counterexample :
+    let r := run C04_cfg0 (fun k => k == 2) C04_stickyWitness { committed := [] }
+    r.2 = .err [.inj 2] ∧ r.1.committed = [1] ∧ r.1.stale = true ∧ r.1.rbFault = false ∧
+    spec C04_cfg0 (fun k => k == 2) C04_stickyWitness [] = ([1], .ok) := by
+  decide
+
+/-- boundary of the claim: a fault injected into the deferred ROLLBACK TO (driver call 4) is discarded by gorm
+    (finisher_api.go:635), so the failing nested block's write 2 survives and is committed. Such faults are outside the
+    property's fault list (BEGIN/COMMIT/SAVEPOINT/statement); the theorems exclude them by `rbFault = false`. -/
+theorem C04_rollbackto_fault_example :
+    let p : List Prog := [.blk [.write (.ins 1) true, .blk [.write (.ins 2) true] .retErr 1 false] .retNil 2 true]
+    let r := run C04_cfg0 (fun k => k == 4) p { committed := [] }
+    r.1.rbFault = true ∧ r.1.committed = [1, 2] := by
+  decide
 
 end Gorm
